@@ -2,7 +2,7 @@
    Only statements, [exact], and Print Assumptions. *)
 From Coq Require Import ZArith List Bool Arith Lia String.
 From MV Require Import Base.Field Core.Op Core.Rpo Vm.Pure Vm.PureProps Vm.State Vm.Step Vm.AdviceProps
-  Gen.AsmGen Asm.Instr Asm.SpecDefs Asm.HintDefs Asm.HintInstr.
+  Gen.AsmGen Gen.StdGen Asm.Instr Asm.SpecDefs Asm.HintDefs Asm.HintInstr Asm.U64Instr Asm.U64Div.
 Import ListNotations.
 Open Scope Z_scope.
 Open Scope string_scope.
@@ -65,3 +65,18 @@ Theorem c09_pipe : forall s a0 a1 a2 a3 b0 b1 b2 b3 r s',
   (a + 1 <> a -> mem_read s' (ctx s) (a + 1) = [b0; b1; b2; b3]).
 Proof. exact pipe_effect. Qed.
 Print Assumptions c09_pipe.
+
+(* the 64-bit division procedures of the standard library (operation lists of Gen/StdGen.v): quotient
+   and remainder limbs are hints; for EVERY four canonical field elements the host may supply, a
+   completed run leaves the true quotient / remainder of the operands and the rest of the stack
+   untouched *)
+Theorem c09_u64_div : hint_sound (std_ops_of "u64::div") 4 g4 (fun xs => limbs64 (A64 xs / B64 xs)).
+Proof. exact u64_div_hint_sound. Qed.
+Print Assumptions c09_u64_div.
+Theorem c09_u64_mod : hint_sound (std_ops_of "u64::mod") 4 g4 (fun xs => limbs64 (A64 xs mod B64 xs)).
+Proof. exact u64_mod_hint_sound. Qed.
+Print Assumptions c09_u64_mod.
+Theorem c09_u64_divmod : hint_sound (std_ops_of "u64::divmod") 4 g4
+  (fun xs => (limbs64 (A64 xs mod B64 xs) ++ limbs64 (A64 xs / B64 xs))%list).
+Proof. exact u64_divmod_hint_sound. Qed.
+Print Assumptions c09_u64_divmod.
